@@ -99,3 +99,9 @@ VARIANTS += [
          old="                trial_models = [\n                    t\n                    for t in trial_models\n                    if t.trial_id in included_trial_ids or t.trial_id > trial_id_greater_than\n                ]\n",
          new="                ids = sorted(included_trial_ids)\n                trial_models = [t for t in trial_models if t.trial_id > trial_id_greater_than]\n                for i in range(0, len(ids), 500):\n                    id_slice = ids[i : i + 500]\n                    trial_models += query.filter(models.TrialModel.trial_id.in_(id_slice)).all()\n"),
 ]
+
+VARIANTS += [
+    dict(id="c08-grpc-refresh-outside-lock", prop="C08", file=GC, expect="R08.1",
+         old="        with self.lock:\n            self._read_trials_from_remote_storage(study_id)\n",
+         new="        self._read_trials_from_remote_storage(study_id)\n        with self.lock:\n"),
+]
